@@ -121,6 +121,41 @@ Section C09.
     map (erase V) (sem_chain c (SParser V id :: ch) (List.concat bs)).
   Proof. exact (chain_agrees_parser_first V v0 v1 vadd vdiv vltb vleb veqb vofZ panic_kills fpf re_match pfloat parse tmpl). Qed.
 
+  (* the bucket arrays of the aggregators (per-series arrays indexed by window): when the stage does not fail (fewer than
+     2000 series), for EVERY batching and every interleaving of series and buckets, the entries sent under fingerprint f
+     are one entry per non-empty bucket, whose value is the finalised left fold of the function's update over exactly the
+     entries of that fingerprint that fall into that bucket, in arrival order (series_out); series are never mixed *)
+  Theorem aggregation_buckets : forall c k dur bs ss l',
+    agg_specified k = true -> agg_input_ok V c dur (List.concat bs) -> 0 <= stream_len c dur ->
+    fold_entries V (agg_ops V v0 v1 vadd vdiv vltb veqb vofZ k c dur) [] (List.concat bs) = Ok (ss, l') ->
+    forall f, proj V f (List.concat (run_stage c (SAgg V k dur) bs)) =
+              match proj V f (List.concat bs) with
+              | [] => []
+              | e0 :: _ => series_out V v0 v1 vadd vdiv vltb veqb vofZ k c dur f (e_lbl V e0) (List.concat bs)
+              end.
+  Proof.
+    intros c k dur bs ss l' Hk Hin HN Hf f. cbn [InternalEngine.run_stage].
+    rewrite (wrap_end_only V v0 panic_kills (agg_ops V v0 v1 vadd vdiv vltb veqb vofZ k c dur) (fun s b => eq_refl) bs []).
+    exact (agg_output V v0 v1 vadd vdiv vltb veqb vofZ panic_kills k c dur (List.concat bs) ss l' Hk Hin HN Hf f).
+  Qed.
+
+  (* stage_meets_definition for range and vector aggregation (rate, count_over_time, bytes_rate, bytes_over_time, unwrapped
+     rate / sum / avg / max / min / first / last _over_time, sum / min / max / avg / count): for every batching, every label
+     set m whose entries are exactly the entries carrying fingerprint fpf m (what the parser and by/without stages
+     establish, and what hash.go breaks for colliding sets), the stage sends for that series exactly the reference's
+     buckets: same timestamps, same values, same labels.  The float facts used are listed as hypotheses.                 *)
+  Theorem stage_meets_definition_aggregation :
+    vltb v0 v0 = false -> vltb v0 v1 = true -> veqb v0 v0 = true -> veqb v1 v0 = false -> vltb v0 (vadd v0 v1) = true ->
+    (forall x, vltb v0 x = true -> vltb v0 (vadd x v1) = true) -> (forall x, vltb v0 x = true -> veqb x v0 = false) ->
+    forall k c dur bs ss l' m e0 rest,
+    agg_specified k = true -> agg_input_ok V c dur (List.concat bs) ->
+    fold_entries V (agg_ops V v0 v1 vadd vdiv vltb veqb vofZ k c dur) [] (List.concat bs) = Ok (ss, l') ->
+    (forall e, In e (List.concat bs) -> N.eqb (e_fp V e) (fpf m) = lbls_eqb (lbl_of V e) m) ->
+    proj V (fpf m) (List.concat bs) = e0 :: rest -> e_lbl V e0 = Some m ->
+    proj V (fpf m) (List.concat (run_stage c (SAgg V k dur) bs)) =
+    sem_buckets V v0 v1 vadd vdiv vltb vofZ fpf k c dur m (filter (fun e => lbls_eqb (lbl_of V e) m) (List.concat bs)) 0 (Z.to_nat (stream_len c dur)).
+  Proof. exact (agg_meets_definition V v0 v1 vadd vdiv vltb vleb veqb vofZ panic_kills fpf re_match pfloat parse tmpl). Qed.
+
   (* the partial statement for json / logfmt: under the guard that every line decodes, the stage meets its definition *)
   Theorem stage_meets_definition_parser_partial : forall c id rows t bs,
     0 <= c_limit c ->
@@ -146,6 +181,8 @@ Print Assumptions batching_invariant_optimizer.
 Print Assumptions stage_meets_definition_simple_stages.
 Print Assumptions engines_agree.
 Print Assumptions engines_agree_after_parser.
+Print Assumptions aggregation_buckets.
+Print Assumptions stage_meets_definition_aggregation.
 Print Assumptions stage_meets_definition_parser_partial.
 
 (* hash.go: the fingerprint does not depend on the order in which Go ranges over the label map *)
@@ -190,4 +227,36 @@ Example agreement_hypotheses_met :
   List.concat [[r1]; []; [r2; eof]] = [r1; r2] ++ [eof] /\ forallb (simple_stage Z) ch = true.
 Proof.
   cbv zeta. repeat split; try (repeat constructor; try eexists; try reflexivity; try discriminate).
+Qed.
+
+(* the float facts assumed by stage_meets_definition_aggregation are satisfiable (here by the integers; they are the
+   IEEE binary64 facts 0 < 1, 0 = 0, 1 <> 0, 0 < 0 + 1, x > 0 -> x + 1 > 0, x > 0 -> x <> 0) *)
+Example float_facts_satisfiable :
+  Z.ltb 0 0 = false /\ Z.ltb 0 1 = true /\ Z.eqb 0 0 = true /\ Z.eqb 1 0 = false /\ Z.ltb 0 (0 + 1) = true /\
+  (forall x, Z.ltb 0 x = true -> Z.ltb 0 (x + 1) = true) /\ (forall x, Z.ltb 0 x = true -> Z.eqb x 0 = false).
+Proof.
+  repeat split; try reflexivity; intros x H; apply Z.ltb_lt in H; [apply Z.ltb_lt|apply Z.eqb_neq]; lia.
+Qed.
+
+(* the hypotheses of the aggregation theorems are met by a non-trivial input: min_over_time over a 20 s window of two
+   10 s buckets, three entries of one series in two batches, two of them in the same bucket *)
+Example aggregation_hypotheses_met :
+  let m := [("a", "b")]%string in
+  let mk := fun ts v => {| e_ts := ts; e_fp := 5%N; e_lbl := Some m; e_msg := EmptyString; e_val := v; e_err := ENone |} in
+  let c := {| c_from := 0; c_to := 20; c_limit := 0 |} in
+  let bs := [[mk 1 3; mk 12 7]; [mk 2 1]] in
+  agg_specified (KUnwrap UMin) = true /\ agg_input_ok Z c 10 (List.concat bs) /\
+  (exists ss l', fold_entries Z (agg_ops Z 0 1 Z.add Z.div Z.ltb Z.eqb (fun z => z) (KUnwrap UMin) c 10) [] (List.concat bs) = Ok (ss, l')) /\
+  (forall e, In e (List.concat bs) -> N.eqb (e_fp Z e) 5%N = lbls_eqb (lbl_of Z e) m) /\
+  proj Z 5%N (List.concat bs) = mk 1 3 :: [mk 12 7; mk 2 1] /\
+  List.concat (run_stage Z 0 1 Z.add Z.div Z.ltb Z.leb Z.eqb (fun z => z) false (fun _ => 5%N) (fun _ _ => false) (fun _ => None)
+                         (fun _ _ => None) (fun _ _ => None) c (SAgg Z (KUnwrap UMin) 10) bs)
+  = [{| e_ts := 0; e_fp := 5%N; e_lbl := Some m; e_msg := EmptyString; e_val := 1; e_err := ENone |};
+     {| e_ts := 10; e_fp := 5%N; e_lbl := Some m; e_msg := EmptyString; e_val := 7; e_err := ENone |}].
+Proof.
+  cbv zeta. split; [reflexivity|]. split.
+  - repeat constructor; cbn; lia.
+  - split; [eexists; eexists; vm_compute; reflexivity|]. split.
+    + intros e [<-|[<-|[<-|[]]]]; reflexivity.
+    + split; vm_compute; reflexivity.
 Qed.
